@@ -42,6 +42,7 @@ def brute_marginal(p, v):
 
 def one_case(ctx, kind, n, h, scale, am, ph, tag=None):
     case = {"kind": kind, "n": n, "h": h, "scale": scale, "am": am, "ph": ph}
+    ctx.current_case = case
     st = qc.make_positive(n, h, am) if kind == "pos" else qc.make_complex(n, h, am, ph)
     rows = qc.all_states(n)
     space_t = torch.tensor(rows, dtype=torch.double)
